@@ -99,15 +99,15 @@ func sanitizeInterfaceInlineFragment(ctx *PlanningContext, selectionSet ast.Sele
 		return ast.SelectionSet{selection}
 	}
 
+	// every possible type gets the fields of the fragment, not the fragments made for the types before it
+	fragmentSelectionSet := selectionSet
 	for _, pt := range possibleTypes {
 		inlineFragment := &ast.InlineFragment{
 			TypeCondition:    pt.Name,
 			Directives:       selection.Directives,
-			SelectionSet:     selection.SelectionSet,
+			SelectionSet:     fragmentSelectionSet,
 			ObjectDefinition: pt,
 		}
-		css := &selectionSet
-		inlineFragment.SelectionSet = *css
 		selectionSet = addSelectionSetToSanitizedResult(selectionSet, inlineFragment)
 	}
 	return selectionSet
